@@ -382,7 +382,13 @@ class Repo(object):
                 tree = ast.parse(text, filename=rel)
             except SyntaxError as e:
                 raise AnalysisError('%s does not parse: %s' % (rel, e))
+            from . import objflat
+            # generic functions read as isinstance chains; helper classes are left as written here (the rules for the
+            # Python modules know the classes of the reference tree by role) -- the Cython front end flattens them
+            objflat._link(tree)
+            flattened = objflat.merge_dispatch(tree)
             self._mods[rel] = PyModule(rel, text, tree)
+            self._mods[rel].flattened = flattened
             self._mods[rel].repo = self
             self._mods[rel].tree._pymodule = self._mods[rel]
         return self._mods[rel]
